@@ -34,6 +34,7 @@ type c19Scenario struct {
 	cfg     *Config
 	prior   []c19Upload   // uploaded sequentially before the threads start
 	threads [][]c19Upload // one list per thread
+	restart bool          // the receiver is restarted after the prior uploads: the channel exists on disk only (init_org files)
 	user    string
 	pswd    string
 }
@@ -119,6 +120,8 @@ func TestVerifC19(t *testing.T) {
 		{name: "two-existing-channels", prior: []c19Upload{up("ch1", v, "init"), up("ch2", v, "init"), up("ch3", a, "init")},
 			threads: [][]c19Upload{{up("ch1", v, "0")}, {up("ch2", v, "0")}, {up("ch3", a, "0")}}},
 		{name: "same-track-two-segments", prior: []c19Upload{up("ch1", v, "init"), up("ch1", v, "0")}, threads: [][]c19Upload{{up("ch1", v, "1")}, {up("ch1", v, "2")}}},
+		{name: "restarted-same-track", restart: true, prior: []c19Upload{up("ch1", v, "init"), up("ch1", a, "init"), up("ch1", v, "0")}, threads: [][]c19Upload{{up("ch1", v, "1")}, {up("ch1", v, "2")}}},
+		{name: "restarted-init+media", restart: true, prior: []c19Upload{up("ch1", v, "init"), up("ch1", v, "0")}, threads: [][]c19Upload{{up("ch1", v, "init")}, {up("ch1", v, "1")}}},
 		{name: "media-of-two-tracks", prior: []c19Upload{up("ch1", v, "init"), up("ch1", a, "init")}, threads: [][]c19Upload{{up("ch1", v, "0"), up("ch1", v, "1")}, {up("ch1", a, "0"), up("ch1", a, "1")}}},
 	}
 	bound := 2
@@ -255,6 +258,18 @@ func TestVerifC19(t *testing.T) {
 					do(u)
 				}
 				s.Quiesce()
+				if sc.restart {
+					// a new receiver process on the same storage: tracks are restored from init_org.* when first used
+					cancel()
+					s.Quiesce()
+					ctx2, cancel2 := context.WithCancel(context.Background())
+					defer cancel2()
+					rc, h, err = rNewReceiver(ctx2, storage, cfg, 30)
+					if err != nil {
+						s.Fail("setup", err.Error())
+						return
+					}
+				}
 				if seqOrder == nil {
 					var hs []*vrt.Handle
 					for ti, us := range sc.threads {
